@@ -16,7 +16,32 @@ ASSUMPTIONS = ['np.interp = NpInterp.npInterp (last j with xp[j] <= x, clamped e
                'compute_bin_edges = Binning.computeBinEdges',
                'licensed deviation: tau>10 early exit (transmission) / exp(-10) clamp (emission) couple columns; '
                'differences inside the C01/C02 band are accepted',
-               'scipy interp1d(linear, fill_value=(first,last)) in KTable.opacity = np.interp per g-point (validated each run)']
+               'scipy interp1d(linear, fill_value=(first,last)) in KTable.opacity = np.interp per g-point (validated each run)',
+               'source tie: the numpy primitives are the definitions of lean/TaurexModel/Gen/Prelude.lean (element-wise ops with 1-D broadcasting, slices, searchsorted = count, stable argsort, masks, np.where, take); the list dialect of the translator (harness/translate_list.py) is part of the trusted base',
+               'source tie: compute_opacity(T, P, idx) = the native values at the indices idx (point-wise in wavenumber)']
+
+# source tie (list dialect of the source translator, harness/translate_list.py): regenerated on every run into
+# lean/TaurexModel/Gen/SrcC13.lean; lean/Props/C13Src.lean proves each definition equal to the model (TaurexModel/Grid.lean)
+_OPA_ATTRS = {'self.wavenumberGrid': ('wavenumberGrid', 'list')}
+SRC_SPECS = [
+    dict(dialect='list', module='taurex/util/util.py', func='compute_bin_edges', lean='compute_bin_edges',
+         params=dict(wngrid='list')),
+    dict(dialect='list', module='taurex/util/util.py', func='clip_native_to_wngrid', lean='clip_native_to_wngrid',
+         params=dict(native_grid='list', wngrid='list')),
+    # Opacity.opacity(T, P, wngrid=<array>): `compute_opacity` (the (T, P) interpolation, C04) and np.interp are externals
+    dict(dialect='list', module='taurex/opacity/opacity.py', cls='Opacity', func='opacity', lean='opacity_on_grid',
+         params=dict(temperature='skip', pressure='skip', wngrid='list'), attrs=_OPA_ATTRS,
+         vexternals={'self.compute_opacity': dict(lean='compute_opacity', args=['skip', 'skip', 'natlist'], ret='list'),
+                     'np.interp': dict(lean='interp', args=['s*', 'list', 'list'], ret='s')}),
+    # KTable.opacity: one g-point column (`.reshape(-1, ng)` only re-arranges the g axis); scipy's interp1d is an external
+    # that returns a function
+    dict(dialect='list', module='taurex/opacity/ktables/ktable.py', cls='KTable', func='opacity', lean='ktable_opacity_on_grid',
+         params=dict(temperature='skip', pressure='skip', wngrid='list'), attrs=_OPA_ATTRS, lift_methods=('reshape',),
+         vexternals={'self.compute_opacity': dict(lean='compute_opacity', args=['skip', 'skip', 'natlist'], ret='list'),
+                     'interp1d(assume_sorted,axis,bounds_error,copy,fill_value)': dict(
+                         lean='interp1d', args=['list', 'list', 'bool', 'nat', 'bool', 'bool', ('tuple', ('s', 's'))],
+                         ret=('fn', ('list',), 'list'))}),
+]
 
 
 def native_grid(rng, n, kind):
